@@ -38,6 +38,7 @@ DEFAULTS = [
     (paren(L("'N'")), "'N'"), (paren(L("''")), "''"), (paren(L("'a b'")), "'a b'"), (paren(N(0)), 0), (paren(N(15)), 15),
     (paren(T("now()")), "now()"), (paren(T("NULL")), "NULL"), (paren(T("-1")), "-1"), (paren(T("1.5")), "1.5"), (T("+5"), "+5"),
     (paren(T("getdate()")), "getdate()"),
+    (L("'$$'"), "'$$'"), (L("'paid in $$'"), "'paid in $$'"),
 ] + [(T(d), d) for d in DECIMALS] + [(paren(T(d)), d) for d in DECIMALS[:4]] + [(T(d), d) for d in CAST_DEFAULTS]
 
 ACTIONS = [None, "CASCADE", "RESTRICT", "cascade", "Restrict"]
@@ -82,6 +83,27 @@ def deferrable_tokens(d):
     return K("DEFERRABLE INITIALLY") + T(d)
 
 
+CHECK_FNS = [None, None, None, "abs", "length", "coalesce2"]      # a function call around the column: parentheses inside the condition, before the comparison
+
+
+def check_lhs(o):
+    fn = o.get("fn")
+    if not fn:
+        return I(o["col"])
+    if fn == "coalesce2":
+        return T("coalesce") + paren(I(o["col"]) + P(",") + N(0))
+    return T(fn) + paren(I(o["col"]))
+
+
+def check_lhs_text(o):
+    fn = o.get("fn")
+    if not fn:
+        return o["col"]
+    if fn == "coalesce2":
+        return "coalesce(%s,0)" % o["col"]
+    return "%s(%s)" % (fn, o["col"])
+
+
 def opt_tokens(o):
     k = o["k"]
     if k == "notnull":
@@ -105,7 +127,7 @@ def opt_tokens(o):
         return toks
     if k == "check":
         pre = (K("CONSTRAINT") + I(o["cname"])) if o.get("cname") else []
-        return pre + K("CHECK") + paren(I(o["col"]) + T(o["op"]) + N(o["val"]))
+        return pre + K("CHECK") + paren(check_lhs(o) + T(o["op"]) + N(o["val"]))
     if k == "comment":
         return K("COMMENT") + L(o["text"])
     if k == "autoinc":
@@ -145,7 +167,7 @@ def column_expect(c):
         elif k == "ref":
             e["references"] = ref_expect(o)
         elif k == "check":
-            e["check"] = "%s %s %s" % (o["col"], o["op"], o["val"])
+            e["check"] = "%s %s %s" % (check_lhs_text(o), o["op"], o["val"])
             if o.get("cname"):
                 e["check"] = {"constraint_name": o["cname"], "statement": e["check"]}
         elif k == "comment":
@@ -165,7 +187,7 @@ def clause_tokens(cl):
     if k == "unique":
         return pre + K("UNIQUE") + paren(comma_list([I(c) for c in cl["cols"]]))
     if k == "check":
-        return pre + K("CHECK") + paren(I(cl["col"]) + T(cl["op"]) + N(cl["val"]))
+        return pre + K("CHECK") + paren(check_lhs(cl) + T(cl["op"]) + N(cl["val"]))
     if k == "fk":
         toks = pre + K("FOREIGN KEY") + paren(comma_list([I(c) for c in cl["cols"]]))
         toks += K("REFERENCES") + dotted(cl.get("ref_schema"), cl["ref_table"]) + paren(comma_list([I(c) for c in cl["ref_cols"]]))
@@ -229,7 +251,7 @@ def table_expect(t):
             else:
                 cons.setdefault("uniques", []).append({"columns": list(cl["cols"]), "constraint_name": "UC_" + "_".join(cl["cols"])})
         elif k == "check":
-            st = "%s %s %s" % (cl["col"], cl["op"], cl["val"])
+            st = "%s %s %s" % (check_lhs_text(cl), cl["op"], cl["val"])
             checks.append({"constraint_name": cl.get("name"), "statement": st})
             if cl.get("name"):
                 cons.setdefault("checks", []).append({"constraint_name": cl["name"], "statement": st})
@@ -325,7 +347,7 @@ def compare_table(ent, exp, fields=("type", "size", "nullable", "default", "uniq
 
 # --------------------------------------------------------------------------- random generation
 def gen_ref_opt(rng):
-    return {"k": "ref", "cname": rng.choice([None, None, None, "fk_inline", "FK_In2"]), "schema": rng.choice([None, None, "s1", "Ref_S"]), "table": rng.choice(["other", "Parent", "p2"]),
+    return {"k": "ref", "cname": rng.choice([None, None, None, "fk_inline", "FK_In2"]), "schema": rng.choice([None, None, "s1", "Ref_S"]), "table": rng.choice(["other", "Parent", "p2", '"dim.customer"']),
             "column": rng.choice(["id", "k", "Code"]), "on_delete": rng.choice(ACTIONS), "on_update": rng.choice(ACTIONS[:3]), "deferrable": rng.choice(DEFERRABLE)}
 
 
@@ -342,7 +364,7 @@ def gen_opt(rng, kind, colname):
     if kind == "ref":
         return gen_ref_opt(rng)
     if kind == "check":
-        return {"k": "check", "col": colname, "op": rng.choice([">", "<", ">=", "<>"]), "val": rng.randint(0, 99)}
+        return {"k": "check", "col": colname, "op": rng.choice([">", "<", ">=", "<>"]), "val": rng.randint(0, 99), "fn": rng.choice(CHECK_FNS)}
     if kind == "comment":
         return {"k": "comment", "text": rng.choice(["'c'", "'a comment'", "'Col: x'"])}
     if kind == "autoinc":
@@ -413,7 +435,7 @@ def add_clauses(rng, t, has_pk, max_clauses=5, position="after_first"):
         elif kd in ("uq", "cuq"):
             made.append({"kind": "unique", "cols": cs, "name": ("uq_%d" % cn) if kd == "cuq" else None})
         elif kd in ("ck", "cck"):
-            made.append({"kind": "check", "col": cs[0], "op": rng.choice([">", "<", ">="]), "val": rng.randint(0, 99),
+            made.append({"kind": "check", "col": cs[0], "op": rng.choice([">", "<", ">="]), "val": rng.randint(0, 99), "fn": rng.choice(CHECK_FNS),
                          "name": ("ck_%d" % cn) if kd == "cck" else None})
         else:
             if kd == "fk":
@@ -422,7 +444,7 @@ def add_clauses(rng, t, has_pk, max_clauses=5, position="after_first"):
                     continue
                 has_ref.update(cs)
             made.append({"kind": "fk", "cols": cs, "name": ("fk_%d" % cn) if kd == "cfk" else None,
-                         "ref_schema": rng.choice([None, "s"]), "ref_table": rng.choice(["p", "Parent2"]),
+                         "ref_schema": rng.choice([None, "s"]), "ref_table": rng.choice(["p", "Parent2", '"dim.shop"']),
                          "ref_cols": ["k%d" % i for i in range(len(cs))],
                          "on_delete": rng.choice(ACTIONS[:3]), "on_update": rng.choice(ACTIONS[:3]), "deferrable": rng.choice(DEFERRABLE)})
     # place clauses: anywhere after the first column
